@@ -76,6 +76,19 @@ def observe(mido, f, what):
                 return ('ok', out, tuple(clock.sleeps))
             finally:
                 mm.time = real
+        if what == 'iter_nested':
+            # a full iteration during which length is measured after the first
+            # message (a progress display does this); the iteration itself
+            # must be unaffected
+            out = []
+            for i, m in enumerate(f):
+                out.append(sig(m))
+                if i == 0:
+                    try:
+                        f.length
+                    except Exception:
+                        pass
+            return ('ok', out)
         if what == 'play_meta':
             clock = FakeClock()
             real = mm.time
@@ -91,7 +104,7 @@ def observe(mido, f, what):
     raise AssertionError(what)
 
 
-OBS = ('iter', 'length', 'merged', 'save', 'play')
+OBS = ('iter', 'length', 'merged', 'save', 'play', 'iter_nested')
 
 
 def fresh_copy(mido, f):
@@ -126,7 +139,11 @@ def make_search(mido, depth):
             out += [('pop_track',), ('del_track0',)]
         for i in range(min(n, 2)):
             out += [('append_msg', i), ('insert_tempo', i),
-                    ('extend_msgs', i)]
+                    ('extend_msgs', i), ('append_tempo', i),
+                    ('append_pitch', i)]
+            if any(getattr(m, 'type', '') == 'pitchwheel'
+                   for m in f.tracks[i]):
+                out.append(('toggle_pitch', i))
             if len(f.tracks[i]):
                 out += [('del_msg0', i), ('set_time', i)]
                 if hasattr(f.tracks[i][0], 'tempo'):
@@ -189,6 +206,15 @@ def make_search(mido, depth):
             f.tracks[op[1]].append(note(10))
         elif k == 'extend_msgs':
             f.tracks[op[1]] += [note(1), MM('end_of_track', time=4)]
+        elif k == 'append_tempo':
+            f.tracks[op[1]].append(MM('set_tempo', tempo=1000000, time=5))
+        elif k == 'append_pitch':
+            f.tracks[op[1]].append(M('pitchwheel', pitch=-1, time=2))
+        elif k == 'toggle_pitch':
+            for m in f.tracks[op[1]]:
+                if m.type == 'pitchwheel':
+                    m.pitch = -2 if m.pitch == -1 else -1   # hash(-1)==hash(-2)
+                    break
         elif k == 'insert_tempo':
             f.tracks[op[1]].insert(0, MM('set_tempo', tempo=250000, time=0))
         elif k == 'del_msg0':
@@ -222,7 +248,8 @@ def make_search(mido, depth):
                 # and expanded
                 got = observe(mido, build(hist + (op,))['f'], what)
             first = False
-            exp = observe(mido, fresh_copy(mido, f), what)
+            exp = observe(mido, fresh_copy(mido, f),
+                          'iter' if what == 'iter_nested' else what)
             if got != exp:
                 prior = [o[1] for o in hist if o[0] == 'obs']
                 violation(
